@@ -47,10 +47,13 @@ def handle : Handler := fun j a => do
   let canon := canonical recorded srvs
   if canon != jBoolOr j "canonical" false then a := a.mismatch s!"harness and Lean disagree on the canonical predicate in {ctx}"
   if !canon then
-    a := a.violationSig s!"{pid}:not-canonical-after-healing" s!"{jStrOr j "why" ""}; writers={writers srvs} recorded={recorded} in {ctx}"
+    a := a.violationSig s!"{pid}:not-canonical-after-healing{if crashed != "" && jStrOr j "crash_state" "" == "promoted-node-not-yet-recorded" then ":manager-died-after-new-master-writable-before-master-key-written" else ""}" s!"{jStrOr j "why" ""}; writers={writers srvs} recorded={recorded} in {ctx}"
   let acked := jStrOr j "acked_set" ""
+  -- the state in which the manager died distinguishes the known window (C07 known finding) from anything else
+  let crashState := jStrOr j "crash_state" ""
+  let sfx := if crashed != "" && crashState == "promoted-node-not-yet-recorded" then ":manager-died-after-new-master-writable-before-master-key-written" else ""
   if !ackedPreserved recorded srvs acked then
-    a := a.violationSig s!"{pid}:acknowledged-transaction-missing-on-the-master" s!"lost={strList j "lost"} in {ctx}"
+    a := a.violationSig s!"{pid}:acknowledged-transaction-missing-on-the-master{sfx}" s!"lost={(strList j "lost").take 5} ({(strList j "lost").length}) in {ctx}"
   -- one acknowledging node at a time
   let samples ← jArr j "samples"
   let mut prevAck : List String := []
